@@ -206,7 +206,11 @@ func (o *Obl) scriptWith(produceModel, allDecls bool, trailer string) string {
 	if o.Cover {
 		b.WriteString("(assert " + o.Goal + ")\n")
 	} else {
-		b.WriteString("(assert (not " + o.Goal + "))\n")
+		decls, goal := skolemizeGoal(o.Goal)
+		for _, d := range decls {
+			b.WriteString(d + "\n")
+		}
+		b.WriteString("(assert (not " + goal + "))\n")
 	}
 	b.WriteString("(check-sat)\n")
 	if trailer != "" {
@@ -240,6 +244,36 @@ type State struct {
 	top    string
 	defers []deferRec
 	gen    int // havoc generation: names the symbol used for heap keys not yet materialized
+	evs    []havocEv // whole-heap havocs so far (immutable slices; append copies)
+}
+
+// havocEv records one whole-heap havoc; keys it does not affect keep the symbol of the previous generation.
+type havocEv struct {
+	gen    int
+	all    bool     // ghosts too ("modifies heap")
+	except []string // struct types whose field heaps are kept ("modifies memory except T")
+}
+
+func (ev havocEv) affects(key string) bool {
+	if ev.all {
+		return true
+	}
+	return !strings.HasPrefix(key, "G:") && !keptKey(key, ev.except)
+}
+
+// genOf: the generation naming the not-yet-materialized heap key in st.
+func (st *State) genOf(key string) int {
+	for i := len(st.evs) - 1; i >= 0; i-- {
+		if st.evs[i].affects(key) {
+			return st.evs[i].gen
+		}
+	}
+	return 0
+}
+
+func (st *State) pushHavoc(ev havocEv) {
+	st.evs = append(append([]havocEv(nil), st.evs...), ev)
+	st.gen = ev.gen
 }
 
 type deferRec struct {
@@ -249,7 +283,7 @@ type deferRec struct {
 }
 
 func (s *State) clone() *State {
-	n := &State{guard: s.guard, top: s.top, gen: s.gen, cells: make(map[*Cell]Val, len(s.cells)), heap: make(map[string]string, len(s.heap))}
+	n := &State{guard: s.guard, top: s.top, gen: s.gen, evs: s.evs, cells: make(map[*Cell]Val, len(s.cells)), heap: make(map[string]string, len(s.heap))}
 	for k, v := range s.cells {
 		n.cells[k] = v
 	}
@@ -271,7 +305,7 @@ func (vc *VC) getHeap(st *State, key, sort string) string {
 		return h
 	}
 	// initial heap symbol: shared across all states of this VC (same name => same entry value)
-	n := fmt.Sprintf("H%d_%s", st.gen, sanitize(key))
+	n := fmt.Sprintf("H%d_%s", st.genOf(key), sanitize(key))
 	d := fmt.Sprintf("(declare-const %s %s)", n, sort)
 	found := false
 	for _, x := range vc.decls {
@@ -305,11 +339,44 @@ func (vc *VC) mergeStates(ins []*State) *State {
 	out := &State{cells: map[*Cell]Val{}, heap: map[string]string{}}
 	out.guard = vc.define("g", sBool, or(guards...))
 	out.gen = ins[0].gen
-	for _, s := range ins[1:] {
-		if s.gen != out.gen {
+	{
+		// common prefix of the havoc histories; differing suffixes collapse into one conservative event
+		n := len(ins[0].evs)
+		for _, s := range ins[1:] {
+			k := 0
+			for k < n && k < len(s.evs) && s.evs[k].gen == ins[0].evs[k].gen {
+				k++
+			}
+			n = k
+		}
+		out.evs = ins[0].evs[:n:n]
+		differ := false
+		ev := havocEv{}
+		first := true
+		for _, s := range ins {
+			for _, e := range s.evs[n:] {
+				differ = true
+				ev.all = ev.all || e.all
+				if first {
+					ev.except = e.except
+					first = false
+				} else {
+					var keep []string
+					for _, x := range ev.except {
+						for _, y := range e.except {
+							if x == y {
+								keep = append(keep, x)
+							}
+						}
+					}
+					ev.except = keep
+				}
+			}
+		}
+		if differ {
 			vc.gens++
-			out.gen = vc.gens
-			break
+			ev.gen = vc.gens
+			out.pushHavoc(ev)
 		}
 	}
 	// top
